@@ -10,7 +10,7 @@ from ..classflow import EXEMPT_ROOTS, Closure, callable_names, is_rejector
 from ..dataflow import ReachingDefs, bound_in_enclosing_comp
 from ..loader import AnalysisError, BuiltinClass, ClassInfo, FuncInfo, dotted, norm, walk_no_nested
 from ..report import Ctx
-from ._shared import headerset_insertion_rule
+from ._shared import headerset_insertion_rule, headerset_order_rule
 
 LEVEL_TEXT = (
     "Static decision of structural clauses of C08 on /repo's current source: (R8.1) on every class with an Immutable*Mixin "
@@ -114,6 +114,7 @@ def run(ctx: Ctx) -> None:
             ctx.ob("R8.3", f"HeaderSet.{name} mutates both structures", bool(a) and bool(b), f"_headers: {[s.desc for s in a]}; _set: {[s.desc for s in b]}", fi, fi.node, f"HeaderSet.{name} pairing")
     ctx.floor("R8.3", "HeaderSet mutating methods", npair, 5)
     ctx.floor("R8.3", "HeaderSet list growth sites", headerset_insertion_rule(ctx, "R8.3"), 1)
+    ctx.floor("R8.3", "HeaderSet methods that drop and add a key", headerset_order_rule(ctx, "R8.3"), 1)
     # members added to _set are lower-cased, constructor builds _set from _headers lower-cased
     for name, fi in hs.methods.items():
         for call in astq.calls(fi.node):
